@@ -56,6 +56,7 @@ type Engine struct {
 	mu            sync.Mutex
 	loadErrs      []string
 	noPrune       bool
+	prop          string
 }
 
 func goEnv() []string {
@@ -301,6 +302,7 @@ func (e *Engine) Load() error {
 			all = append(all, con.Ensures...)
 			all = append(all, con.Modifies...)
 			all = append(all, con.Cuts...)
+			all = append(all, con.Running...)
 			if con.Coupling != nil {
 				all = append(all, con.Coupling)
 			}
@@ -659,6 +661,17 @@ func (e *Engine) uncomparableIDs(w *World) []*Term {
 
 // intModeBitop: x | c for a literal power of two c adds c when 0 <= x < c.
 func (e *Engine) intModeBitop(x *Exec, op token.Token, a, b *Term, t types.Type) *Term {
+	if op == token.XOR {
+		// x ^ 1 on a 0/1 value
+		if a.isLit && !b.isLit {
+			a, b = b, a
+		}
+		if b.isLit && b.lit.IsInt64() && b.lit.Int64() == 1 {
+			x.w.declFun("bxor", "(Int Int) Int")
+			return Ite(Eq(a, IntLit(0, SInt)), IntLit(1, SInt), Ite(Eq(a, IntLit(1, SInt)), IntLit(0, SInt), App("bxor", SInt, a, b)))
+		}
+		return nil
+	}
 	if op != token.OR {
 		return nil
 	}
